@@ -26,6 +26,9 @@ def contexts(tier):
     c.append(("assert_mod", "n: size, ", ["n % 4 == 0", "n <= 8"], ["for i in seq(0, n):"], ["i", "n"], "i"))
     c.append(("shadow", "", [], ["for i in seq(0, 2):", "for j in seq(0, 2):", "pass", "<<", "for i in seq(2, 5):"], ["i"], "i"))
     c.append(("guard_then_shadow", "", [], ["for i in seq(0, 2):", "if i == 0:", "for i in seq(0, 4):"], ["i"], "i"))
+    # statement in the ELSE branch of an equality guard (facts of the then-branch must not leak)
+    c.append(("guard_eq_else", "", [], ["for i in seq(0, 4):", "if i == 1:", "pass", "<else>"], ["i"], "i"))
+    c.append(("guard_div_else", "", [], ["for i in seq(0, 6):", "if i / 4 == 0:", "pass", "<else>"], ["i"], "i"))
     return c
 
 
@@ -36,6 +39,9 @@ def build_probe(ctx, esrc, position):
         lines.append(f"    assert {a}")
     ind = 1
     for o in openers:
+        if o == "<else>":
+            lines.append("    " * (ind - 1) + "else:")
+            continue
         if o == "<<":
             ind = 1 + 0  # close all: restart at top-level indentation inside the first loop's sibling
             ind = 1
@@ -139,6 +145,14 @@ def run(rep):
         es = GE.gen_exprs(vars_, [0, 1, -1, 3], [2, 4], nodes, mul_consts=(2, -1))
         # keep expressions that mention at least one variable
         es = [e for e in es if GE.vars_of(e)]
+        # structured family: (a*v + b) / d and % d with composite divisors (exercises divisor splitting)
+        v0 = vars_[0]
+        for a, b, d in itertools.product((2, 3, 4, 6), (0, 1), (4, 6, 8, 12)):
+            inner = ("+", ("*", ("c", a), ("v", v0)), ("c", b)) if b else ("*", ("c", a), ("v", v0))
+            es.append(("/", inner, d))
+            es.append(("%", inner, d))
+            if len(vars_) > 1:
+                es.append(("/", ("+", inner, ("v", vars_[1])), d))
         for e in es:
             for pos in positions:
                 if tier == "quick" and pos != "index" and not GE.has_divmod(e):
